@@ -39,6 +39,15 @@ Verdict(e, pre, r) ==
            \o Clause("C08:reader_restores_span_and_payload_bytes",
                      e.panicked \/ e.err # "" \/ (e.spanEcho /\ e.prefix))
       ELSE <<>>)
+     \* the encrypted writer encrypts every chunk of a file (each is at most the padding size)
+  \o (IF e.op = "upload" THEN Clause("C08:payload_up_to_padding_is_encrypted", e.werr = "" /\ e.err = "") ELSE <<>>)
+     \* the same for the chunks the real encrypted writer stored: the length it handed over before encryption
+  \o (IF e.op = "chunk"
+      THEN    Clause("C08:reader_restores_stored_length",
+                     ~e.panicked /\ e.err = "" /\ e.gotLen = 8 + e.storedLen)
+           \o Clause("C08:reader_restores_span_and_payload_bytes",
+                     e.panicked \/ e.err # "" \/ (e.spanEcho /\ e.prefix))
+      ELSE <<>>)
 
 \* conformance notes: implementation-shaped predictions that are not part of the statement
 Drift(e, pre, r) ==
@@ -48,6 +57,10 @@ Drift(e, pre, r) ==
   \o (IF e.op = "dec" /\ ~r.err /\ ~r.prefix /\ e.prefix /\ pre.ct.plen >= 4 THEN <<"prefix_restored_at_other_index">> ELSE <<>>)
   \o (IF e.op = "get" /\ e.plen # StoredLenD(e.md, e.t) THEN <<"scenario_payload_is_not_StoredLen">> ELSE <<>>)
   \o (IF e.op = "get" /\ ~e.panicked /\ e.chunkLen # 8 + RealCS THEN <<"stored_chunk_is_padded_to_chunk_size">> ELSE <<>>)
+     \* the closed form StoredLen (checked against the writer model by MCEncryptTree) describes the real writer
+  \o (IF e.op = "chunk" /\ e.storedLen # StoredLenD(e.md, e.t) THEN <<"writer_stores_StoredLen_of_span">> ELSE <<>>)
+  \o (IF e.op = "chunk" /\ e.refLen # 64 THEN <<"encrypted_reference_is_64_bytes">> ELSE <<>>)
+  \o (IF e.op = "upload" /\ e.err = "" /\ e.werr = "" /\ e.rootLen # 64 THEN <<"encrypted_root_reference_is_64_bytes">> ELSE <<>>)
 
 TInit == l = 1 /\ c = Fresh(0) /\ resA = [op |-> "init"] /\ bad = <<>> /\ notes = <<>>
 
@@ -59,7 +72,9 @@ TStep == /\ l <= NEvents
             IN /\ l' = l + 1
                /\ bad' = IF cs = <<>> THEN bad ELSE Append(bad, BadRec(l, e, cs))
                /\ notes' = IF ds = <<>> \/ Len(notes) >= 20 THEN notes ELSE Append(notes, BadRec(l, e, ds))
-               /\ c' = pr[1]       \* the objects' counters are not observable: the model keeps its own
+               \* the objects' counters are not observable: the model keeps its own; but an Encrypt that was
+               \* refused produced no ciphertext, whatever the model says (resynchronise)
+               /\ c' = IF e.op = "enc" /\ e.err THEN c ELSE pr[1]
                /\ resA' = [op |-> e.op]
 
 TSpec == TInit /\ [][TStep]_<<varsA, l, bad, notes>>
